@@ -39,6 +39,7 @@ type worldCase struct {
 	ServerFB     []bool         `json:"server_feedback_table"`
 	Markings     []int          `json:"markings_per_case"` // 0 unmarked, 1 known failing, 2 known flaky
 	ExactMark    bool           `json:"marked_cases_also_listed_by_exact_name"`
+	SerialSlowClient bool       `json:"serial_slow_client"`
 	RunPatterns  []string       `json:"run_patterns"`
 	SkipPatterns []string       `json:"skip_patterns"`
 	Client       clientScript   `json:"client_process"`
@@ -351,7 +352,7 @@ func worldC05(w *world, cs *worldCase, selected map[string]*conformancev1.TestCa
 	}
 	for _, slot := range sortedKeys(w.clients) {
 		c := w.clients[slot]
-		if len(c.faultFired) > 0 {
+		if clientMisbehaved(c) {
 			clean = false
 		}
 		for i, req := range c.received {
@@ -397,8 +398,11 @@ func worldC05(w *world, cs *worldCase, selected map[string]*conformancev1.TestCa
 				if !sr.UseTls && len(req.ServerTlsCert) > 0 && !s.sc.WithCert {
 					viol("c05/certificate", "request %q carries a certificate although its server announced none", name)
 				}
-				if len(s.fired) == 0 && len(c.faultFired) == 0 && !c.aliveAtReceipt[name] {
+				if len(s.fired) == 0 && !clientMisbehaved(c) && !c.aliveAtReceipt[name] {
 					viol("c05/server-not-alive", "request %q reached the client while its (fault-free) server was already stopped", name)
+				}
+				if len(s.fired) == 0 && !clientMisbehaved(c) && c.goneAtAnswer[name] && w.sim.DelayedRunnable == 0 && steady(c) {
+					viol("c05/server-stopped-early", "request %q was handed to the client in time, but its (fault-free) server had been stopped before the (well-behaved, steadily answering) client got to the case", name)
 				}
 				grpcServer := strings.Contains(name, grpcImplMarker) || strings.Contains(name, grpcServerImplMarker)
 				if grpcServer != (s.slot == "grpc-reference-server") {
@@ -452,8 +456,39 @@ func worldC05(w *world, cs *worldCase, selected map[string]*conformancev1.TestCa
 			viol("c05/client-not-stopped", "client %s was still running when Run had returned and the system was quiescent", slot)
 		}
 	}
+	if cs.SerialSlowClient {
+		res.Probes["c05-serial-slow-client"]++
+		if w.maxLive >= 2 {
+			res.Probes["c05-serial-slow-client-with-concurrent-batches"]++
+		}
+	}
 	res.Probes[fmt.Sprintf("c05-servers-started-%d", len(w.servers))]++
 	if w.maxLive >= 2 {
 		res.Probes["c05-concurrent-servers"]++
 	}
+}
+
+// clientMisbehaved reports whether a scripted client did anything a correct
+// client would not do (being an in-process, serial or slow client is not).
+func clientMisbehaved(c *simClient) bool {
+	for k, v := range c.faultFired {
+		if v > 0 && k != "in-process-peer" {
+			return true
+		}
+	}
+	return false
+}
+
+// steady reports whether the client's output never paused for (nearly) the
+// runner's client response timeout: the runner declares a client dead that is
+// silent for that long - also while the runner itself kept it waiting - and
+// then tears everything down, which is its documented policy.
+func steady(c *simClient) bool {
+	limit := clientResponseTimeout - time.Second
+	for _, wr := range c.written {
+		if wr.Gap >= limit {
+			return false
+		}
+	}
+	return c.elapsed()-c.lastOutput < limit || c.exited
 }
